@@ -64,7 +64,9 @@ Op(e) ==
   /\ feeReq' = (IF ~Has(e.r, "ok") THEN feeReq ELSE IF e.op = "SetFee" THEN <<"exact", FromBE(e.n)>> ELSE IF e.op = "SetMinFee" THEN <<"notless", FromBE(e.n)>> ELSE feeReq)
   \* collateral fields: unset | set by a helper | set through a raw setter | a helper failed while nothing was set
   /\ colSt' = (IF e.op \in ColHelpers THEN (IF Has(e.r, "ok") THEN "helper" ELSE IF colSt \in {"unset", "failed"} THEN "failed" ELSE colSt)
-               ELSE IF e.op \in {"SetCollateralReturn", "SetTotalCollateral", "AddCollateral"} /\ Has(e.r, "ok") THEN "raw" ELSE colSt)
+               ELSE IF e.op \in {"SetCollateralReturn", "SetTotalCollateral"} /\ Has(e.r, "ok") THEN "raw"
+               \* further collateral inputs after a helper ran make its figures stale; before any helper they change nothing
+               ELSE IF e.op = "AddCollateral" /\ Has(e.r, "ok") /\ colSt = "helper" THEN "raw" ELSE colSt)
   \* redeemer attachments: spends accumulate, the other purposes are replaced by the last successful Set* call
   /\ attach' = (IF Has(e.r, "ok") /\ e.op = "AddInput" /\ Has(e, "item") THEN [attach EXCEPT ![0] = {a \in @ : a.item # e.item}]     \* now a regular input: no script use
                 ELSE IF ~Has(e.r, "ok") \/ ~Has(e.r, "attach") THEN attach
@@ -144,6 +146,15 @@ ScriptChecks(e, tx, body, ws, sc, shape) ==
                    ELSE Fail("C10", "Built/reward-redeemer-index-wrong", sc, [rid |-> a.rid, want |-> RewardIxLedger(body, a.item), got |-> reds[j].ix]))
   /\ Chk(\A i, j \in 1..Len(reds) : i # j => <<reds[i].tag, reds[i].ix>> # <<reds[j].tag, reds[j].ix>>, "C10", "Built/two-redeemers-share-a-pointer", sc, 0)
   /\ Chk(Len(reds) = Cardinality(live), "C10", "Built/redeemer-without-script-use", sc, [redeemers |-> Len(reds), uses |-> Cardinality(live)])
+  \* the item a pointer designates is script-locked - decided from the BODY and the UTxO environment, not from what the caller said it attached
+  /\ \A j \in 1..Len(reds) :
+        LET r == reds[j]
+            locked == CASE r.tag = 0 -> \E q \in 1..Len(Elems(body,0)) : LET k == InputKey(Elems(body,0)[q]) IN SpendIx(body, k) = r.ix /\ k \in DOMAIN env /\ ScriptLockedAddr(env[k].addr)
+                        [] r.tag = 1 -> r.ix < Cardinality(MintPolicies(body))
+                        [] r.tag = 2 -> r.ix < Len(Elems(body,4)) /\ CertScripts(Elems(body,4)[r.ix + 1]) # {}
+                        [] r.tag = 3 -> \E ra \in RewardAccounts(body) : RewardIxLedger(body, ra) = r.ix /\ (ra[1] \div 16) = 15
+                        [] OTHER -> TRUE IN
+        Chk(locked, "C10", "Built/redeemer-points-at-an-item-that-is-not-script-locked", sc, [tag |-> r.tag, ix |-> r.ix])
   \* C18: each script in use is available exactly once: in the witness set, or at a declared reference input that is among body[18] (or spent)
   /\ (live # {} => Obl("C18", sc, <<"scripts", shape, Cardinality(live)>>))
   /\ \A a \in live :
@@ -203,6 +214,12 @@ Built(e) ==
      /\ ScriptChecks(e, tx, body, ws, sc, shape)
      \* ---- C16 determinism
      /\ (e.again => Chk(e.tx = lastTx, "C16", "Built/second-build-differs", sc, 0) /\ Obl("C16", sc, shape))
+     \* ---- C16 canonical key order (shorter key first, then bytewise) of the mint field and of every asset bundle the builder emits
+     /\ LET CanonMap(m) == \A j \in 1..((Len(m.kids) \div 2) - 1) : LET a == m.kids[2*j-1].str b == m.kids[2*j+1].str IN Len(a) < Len(b) \/ (Len(a) = Len(b) /\ LexLt(a, b))
+            CanonBundle(m) == m.mt = 5 /\ CanonMap(m) /\ \A j \in 1..(Len(m.kids) \div 2) : m.kids[2*j].mt = 5 /\ CanonMap(m.kids[2*j])
+            bundles == {OutValItem(outs[j]).kids[2] : j \in {i \in 1..Len(outs) : OutValItem(outs[i]).mt = 4}} IN
+        /\ (HasK(body, 9) => Obl("C16", sc, <<"mint-order", Len(GetK(body, 9).kids) \div 2>>) /\ Chk(CanonBundle(GetK(body, 9)), "C16", "Built/mint-field-not-in-canonical-key-order", sc, 0))
+        /\ Chk(\A b \in bundles : CanonBundle(b), "C16", "Built/output-assets-not-in-canonical-key-order", sc, 0)
      \* ---- C06 fee requests
      /\ (feeReq[1] = "exact" => Chk(fee = feeReq[2], "C06", "Built/fixed-fee-not-used", sc, [fee |-> ToBE(fee, 0)]))
      /\ (feeReq[1] = "notless" => Chk(Geq(fee, feeReq[2]), "C06", "Built/requested-min-fee-not-honoured", sc, [fee |-> ToBE(fee, 0)]))
